@@ -17,7 +17,7 @@ def run(tier, seed):
     ctx.add_exhaustive('checkpandas.types_match.laws', n, bad[:100], time.time() - t, True,
                        sample={'domain': 'every ordered pair of the %d dtype names the installed pandas/numpy produce x 4 levels'
                                          % len(pb.dtype_names()),
-                               'claim': 'strict (and None) iff names equal; reflexive; symmetric; strict <= medium <= permissive'})
+                               'claim': 'strict (and None) iff names equal; reflexive; symmetric; strict <= medium <= permissive; medium = same family (int / float / datetime / bool / string) or object against string / bool / datetime, permissive = medium or any two of int / float / bool (families by pandas dtype predicates; unsigned and str not judged)'})
     ctx.trusted.extend(['A-pandas: list(df), dtype.name, len, round, equals, eq, isnull, sort_values, boolean indexing at their '
                         'pandas meaning', 'z3; pyvc encoding'])
     ctx.assumptions.extend([
